@@ -285,11 +285,12 @@ def _round_uf(n):
 
 class SymReal:
     """Symbolic real (is_int=True: value known to be an integer; still Real-sorted)."""
-    __slots__ = ('z', 'is_int')
+    __slots__ = ('z', 'is_int', 'tag')
 
-    def __init__(self, z, is_int=False):
+    def __init__(self, z, is_int=False, tag=None):
         self.z = z
         self.is_int = is_int
+        self.tag = tag      # ('rad_of', x) / ('deg_of', x): lets degrees(radians(x)) collapse to x exactly
 
     # arithmetic -----------------------------------------------------------------------------
     def _b(self, o, f, intres=None):
